@@ -41,14 +41,15 @@ theorem parseBody_ok (v : Nat) (b : Body) (r : FrameRead.Bytes) (hv : 1 ≤ v)
     simp [parseBody, Body.opcode, opError, opReady, opResult, opSupported, opAuthenticate, opAuthChallenge,
       opAuthSuccess, eMsg, bind_ok (readBytes_eBytes t r h), pure_apply, viewBody, restOfBody]
 
-/-- header flag bits of a response -/
-def flagBitsOf (t p w b : Bool) : Nat :=
-  (if t then 0x02 else 0) + (if p then 0x04 else 0) + (if w then 0x08 else 0) + (if b then 0x10 else 0)
+/-- header flag bits of a response (`c`: the compression bit 0x01 set by the transport) -/
+def flagBitsOf (t p w b c : Bool) : Nat :=
+  (if t then 0x02 else 0) + (if p then 0x04 else 0) + (if w then 0x08 else 0) + (if b then 0x10 else 0) +
+  (if c then 0x01 else 0)
 
-theorem flags_decode : ∀ t p w b : Bool,
-    ((UInt8.ofNat (flagBitsOf t p w b) &&& flagTracing == flagTracing) = t) ∧
-    ((UInt8.ofNat (flagBitsOf t p w b) &&& flagWarning == flagWarning) = w) ∧
-    ((UInt8.ofNat (flagBitsOf t p w b) &&& flagCustomPayload == flagCustomPayload) = p) := by
+theorem flags_decode : ∀ t p w b c : Bool,
+    ((UInt8.ofNat (flagBitsOf t p w b c) &&& flagTracing == flagTracing) = t) ∧
+    ((UInt8.ofNat (flagBitsOf t p w b c) &&& flagWarning == flagWarning) = w) ∧
+    ((UInt8.ofNat (flagBitsOf t p w b c) &&& flagCustomPayload == flagCustomPayload) = p) := by
   decide
 
 theorem version_is_response (v : Nat) (h1 : 1 ≤ v) (h5 : v ≤ 5) :
@@ -85,23 +86,29 @@ theorem payload_ok (payload : Option (List (FrameRead.Bytes × Option FrameRead.
       simpa [wfPayload] using hp
     simp [bind_ok (readBytesMap_eBytesMap p rest this.1.1 this.1.2 this.2), pure_apply, ePayload]
 
-theorem parseResp_ok (v : Nat) (r : LResp) (tail : FrameRead.Bytes) (hw : wf v r = true)
-    (hc : noCollClassResp r = true) :
-    parseResp v (hdr v r) (encodeBody v r ++ tail) = .ok (view v r, restOf r ++ tail) := by
+/-- parseFrame only looks at the version byte, the flags and the opcode of the header -/
+theorem parseResp_hdr (v : Nat) (r : LResp) (tail : FrameRead.Bytes) (h : Header) (c : Bool)
+    (hv : h.version = UInt8.ofNat (v + 0x80)) (hf : h.flags = UInt8.ofNat (r.flags + (if c then 0x01 else 0)))
+    (ho : h.op = UInt8.ofNat r.body.opcode) (hw : wf v r = true) (hc : noCollClassResp r = true) :
+    parseResp v h (encodeBody v r ++ tail) = .ok (view v r, restOf r ++ tail) := by
   obtain ⟨stream, tracing, warnings, payload, beta, body⟩ := r
   simp only [wf, Bool.and_eq_true, decide_eq_true_eq] at hw
   obtain ⟨⟨⟨⟨⟨hv1, hv5⟩, ht⟩, hwn⟩, hp⟩, hb⟩ := hw
-  have hfl := flags_decode tracing.isSome payload.isSome warnings.isSome beta
-  have hflags : (LResp.flags ⟨stream, tracing, warnings, payload, beta, body⟩) =
-      flagBitsOf tracing.isSome payload.isSome warnings.isSome beta := rfl
+  have hfl := flags_decode tracing.isSome payload.isSome warnings.isSome beta c
+  have hflags : (LResp.flags ⟨stream, tracing, warnings, payload, beta, body⟩) + (if c then 0x01 else 0) =
+      flagBitsOf tracing.isSome payload.isSome warnings.isSome beta c := rfl
   have hbody := parseBody_ok v body tail hv1 hb hc
-  have hver : ((hdr v ⟨stream, tracing, warnings, payload, beta, body⟩).version &&& 0x80 == 0) = false :=
-    version_is_response v hv1 hv5
+  have hver : (h.version &&& 0x80 == 0) = false := by rw [hv]; exact version_is_response v hv1 hv5
   unfold parseResp parseFrameP
   rw [if_neg (by rw [hver]; simp)]
-  simp only [hdr, hflags, hfl.1, hfl.2.1, hfl.2.2, restOf, encodeBody, view, List.append_assoc]
+  simp only [hf, ho, hflags, hfl.1, hfl.2.1, hfl.2.2, restOf, encodeBody, view, List.append_assoc]
   rw [bind_ok (trace_ok tracing _ ht), bind_ok (warnings_ok warnings _ hwn), bind_ok (payload_ok payload _ hp),
     bind_ok hbody]
   rfl
+
+theorem parseResp_ok (v : Nat) (r : LResp) (tail : FrameRead.Bytes) (hw : wf v r = true)
+    (hc : noCollClassResp r = true) :
+    parseResp v (hdr v r) (encodeBody v r ++ tail) = .ok (view v r, restOf r ++ tail) :=
+  parseResp_hdr v r tail (hdr v r) false rfl (by simp [hdr]) rfl hw hc
 
 end C04
